@@ -88,10 +88,12 @@ package header
 //@ pred noCRLF(s string) = forall i int :: 0 <= i && i < len(s) ==> s[i] != 13 && s[i] != 10
 
 // The languages of the two regular expression literals of this package
-// (trusted; audited against the real regexp package by the spec audit).
-//@ globalinv headerNameRegex != nil && headerLineRegex != nil && reNGroups(headerLineRegex) == 2
-//@ globalinv forall s string :: reMatch(headerNameRegex, s) ==> isToken(s)
-//@ globalinv forall s string :: reMatch(headerLineRegex, s) ==> isToken(reGroup(headerLineRegex, s, 1)) && noCRLF(reGroup(headerLineRegex, s, 2))
+// (trusted facts about RE2 for exactly these pattern texts; the package
+// initialiser is checked to compile exactly these texts).
+//@ axiom forall r *regexp.Regexp, s string {reMatch(r, s)} :: reSrc(r) == "^[A-Za-z0-9-]+$" && reMatch(r, s) ==> isToken(s)
+//@ axiom forall r *regexp.Regexp :: reSrc(r) == "^([A-Za-z0-9-]+):\\s*([^\\r\\n]*)\\r?\\n?$" ==> reNGroups(r) == 2
+//@ axiom forall r *regexp.Regexp, s string {reMatch(r, s)} :: reSrc(r) == "^([A-Za-z0-9-]+):\\s*([^\\r\\n]*)\\r?\\n?$" && reMatch(r, s) ==> isToken(reGroup(r, s, 1)) && noCRLF(reGroup(r, s, 2))
+//@ globalinv headerNameRegex != nil && headerLineRegex != nil && reSrc(headerNameRegex) == "^[A-Za-z0-9-]+$" && reSrc(headerLineRegex) == "^([A-Za-z0-9-]+):\\s*([^\\r\\n]*)\\r?\\n?$"
 
 // Every rule the parser accepts is a legal header field: token name, value without CR/LF.
 //@ func ParseHeader
@@ -100,3 +102,8 @@ package header
 //@ ensures err == nil && result0.Action == 3 ==> result0.Value != nil && noCRLF(*result0.Value)
 //@ ensures err == nil && result0.Action != 3 ==> result0.Value == nil
 //@ ensures err == nil ==> 0 <= result0.Action && result0.Action <= 4
+
+// The package initialiser establishes the global invariants of this file.
+//@ func init
+//@ property C16
+//@ modifies **
